@@ -70,13 +70,19 @@ def collect():
     return gc.collect()
 
 @guard
-def do_scan(lm, values, seq, threshold, block_size):
+def do_scan(lm, values, seq, threshold, block_size, poke_width):
     pssm = lm.ScoringMatrix(values)
     striped = lm.stripe(seq)
     hits = []
     overflow = False
+    poked = poke_width <= 0
     for h in lm.scan(pssm, striped, threshold=threshold, block_size=block_size):
         hits.append([h.position, repr(h.score)])
+        if not poked:
+            # score the same sequence object with another motif while the scanner is alive
+            poked = True
+            other = lm.ScoringMatrix({k: [0.25 * ((i + j) % 5) - 0.5 for i in range(poke_width)] for j, k in enumerate("ACTG")})
+            other.calculate(striped)
         if len(hits) > len(seq) + 2:
             overflow = True
             break
